@@ -224,6 +224,11 @@ where
         }
     }
 
+    // No discarded limb initialised the carry (shift by zero): it lives in caller scratch.
+    if steps == 0 {
+        ZNXARI::znx_zero(carry);
+    }
+
     // Continues with shifted normalization
     for j in 0..size - steps {
         ZNXARI::znx_copy(tmp, res.at(res_col, size - steps - j - 1));
